@@ -484,6 +484,20 @@ pub fn c07(log: &mut Log, seed: u64, tier: &str) {
     let items = assign(sample, ValMode::Index, &mut r);
     run(log, &items, false, Policy::Random { short: 30, intr: 5 }, b"", None, seed, false);
     run(log, &items, false, Policy::Cap(1), b"", None, seed, false);
+    // wide nodes: the count escape of a 256-transition node and the transition index are written by
+    // calls of their own; schedules in which nearly every write call is interrupted first
+    let wides: Vec<(Vec<Kv>, bool)> = vec![
+        (assign(fanout_keys(b"", 256, false, b"", 0), ValMode::Zero, &mut r), true),
+        (assign(fanout_keys(b"p", 256, true, b"", 0), ValMode::Index, &mut r), false),
+        (assign(fanout_keys(b"", 255, true, b"", 1), ValMode::Zero, &mut r), true),
+        (assign(fanout_keys(b"", 40, true, b"t", 100), ValMode::Index, &mut r), false),
+    ];
+    for (j, (items, set)) in wides.iter().enumerate() {
+        for t in 0..12u64 {
+            let (short, intr) = if t < 4 { (0, 90) } else if t < 8 { (60, 50) } else { (90, 50) };
+            run(log, items, *set, Policy::Random { short, intr }, b"", None, seed + 1000 * j as u64 + t, false);
+        }
+    }
 }
 
 /// bytes_written() is part of C07's statement, not of C11's: the C11 scenario leaves it out of its
